@@ -9,7 +9,8 @@
 (***************************************************************************)
 EXTENDS FromStr, TLC
 CONSTANTS Size,        \* 1 = quick universe, 2 = thorough universe
-          Dedup        \* TRUE = repaired phf key rule, FALSE = the pinned code's rule
+          Dedup,       \* TRUE = repaired phf key rule, FALSE = the pinned code's rule
+          Overlap      \* TRUE = also definitions with overlapping spellings on which first-match semantics is phf-consistent (C16)
 
 k == 107  K == 75  s_ == 115  S == 83  Kelvin == 8490  LongS == 383  One == 49
 Chars7 == {k, K, Kelvin, s_, S, LongS, One}
@@ -23,8 +24,8 @@ SerCfgs == {<<>>} \cup {<<p>> : p \in Singles}
                   \cup {pq \in {<<p, q>> : p \in PairPool, q \in PairPool} : pq[1] # pq[2]}
 TsCfgs == {<<>>} \cup {<<p>> : p \in TsPool}
 StylesU == IF Size = 1 THEN {"none"} ELSE {"none", "snake_case"}
-\* a variant is enabled, disabled or the default catch-all (disabled+default adds nothing)
-Flags == {<<FALSE, FALSE>>, <<TRUE, FALSE>>, <<FALSE, TRUE>>}
+\* a variant is enabled, disabled, the default catch-all, or a disabled default (which must not catch anything)
+Flags == {<<FALSE, FALSE>>, <<TRUE, FALSE>>, <<FALSE, TRUE>>, <<TRUE, TRUE>>}
 VariantsOf(id) == {[id |-> id, ser |-> se, ts |-> t, dis |-> f[1], def |-> f[2], aci |-> a] :
                       se \in SerCfgs, t \in TsCfgs, f \in Flags, a \in {0, 1, 2}}
 Defs1 == {[style |-> st, aci |-> a, phf |-> p, prefix |-> <<>>, variants |-> <<v>>] :
@@ -32,7 +33,7 @@ Defs1 == {[style |-> st, aci |-> a, phf |-> p, prefix |-> <<>>, variants |-> <<v
 Defs2 == {[style |-> st, aci |-> a, phf |-> p, prefix |-> <<>>, variants |-> <<v, w>>] :
              st \in StylesU, a \in BOOLEAN, p \in BOOLEAN,
              v \in VariantsOf(<<K>>), w \in VariantsOf(<<K, s_>>)}
-InDomain(E) == FromStrWF(E) /\ NonOverlap(E)
+InDomain(E) == FromStrWF(E) /\ (NonOverlap(E) \/ (Overlap /\ PhfConsistent(E)))
 
 VARIABLES E, i, arms, keys, dflt, pc
 vars == <<E, i, arms, keys, dflt, pc>>
@@ -67,7 +68,7 @@ NeverDisabled == Done => \A s \in Strs : LET r == ParseSpec(E, s) IN
                     /\ r.k = "variant" => r.i \in Parsable(E)
                     /\ r.k = "capture" => r.i \in DefaultOf(E) /\ r.s = s
 \* C02: every spelling, and in particular the canonical name, parses back to its variant
-RoundTrip == Done => \A j \in Parsable(E) : LET v == E.variants[j] IN
+RoundTrip == Done /\ NonOverlap(E) => \A j \in Parsable(E) : LET v == E.variants[j] IN
                 /\ ParseSpec(E, BaseName(E, v)).i = j
                 /\ \A n \in 1..Len(Spellings(E, v)) : ParseSpec(E, Spellings(E, v)[n]).i = j
 \* C12: a match never crosses a non-ASCII code point or a digit: wherever input and spelling
